@@ -25,7 +25,7 @@ INDEX = {
     'duplicate-extension-leak': ('c09_x509_cert', [K + '/r1/c09_x509_cert/*']),
     'sha1-root-check-memcmp-null': ('c09_x509_cert', [K + '/r2/c09_x509_cert/*']),
     'oneline-dn-separator-overflow': ('c09_x509_cert', [K + '/r2/c09_x509_cert/*']),
-    'ext-crit-flag-shift': ('c09_x509_cert', [K + '/r3/c09_x509_cert/*']),
+    'ext-crit-flag-shift': ('c09_x509_cert', [K + '/crafted/x509_crit_ext_oid31', K + '/r3/c09_x509_cert/*']),
     'crldist-generalnames-error-ignored': ('c09_x509_cert', [K + '/r3/c09_x509_cert/*']),
     'pem-empty-input-null-item': ('c09_x509_pem_bundle', [K + '/r3/c09_x509_pem_bundle/*']),
     'crl-missing-nextupdate-null-deref': ('c09_crl', [K + '/r3/c09_crl/*']),
